@@ -107,7 +107,7 @@ pub fn gen_c07(tier: &str, seed: u64, out: &mut dyn FnMut(Value)) {
             r.cond = Some(Form::V("$a".into()));
             r.severity = match rng.below(5) {
                 0 => None,
-                1 => Some(*rng.pick(&[9u64, 10, 11, 100, 200, 255])),
+                1 | 2 => Some(*rng.pick(&[9u64, 10, 11, 100, 200, 255, 246, 250, 245])),
                 _ => Some(rng.below(12) as u64),
             };
             rules.push(r);
@@ -115,6 +115,10 @@ pub fn gen_c07(tier: &str, seed: u64, out: &mut dyn FnMut(Value)) {
         let events = assignments(&(0..n).map(fpath).collect::<Vec<_>>(), &[Some(s1("1")), Some(s1("0"))]);
         out(scenario_json(&rules, &events, &mut rng, &format!("{n} rules x all subsets")));
     }
+    // reported rules that are also used as dependencies of other reported rules (their contribution must not be
+    // lost or counted twice), with metadata and high severities
+    let cfg = Cfg { max_rules: 6, dep_prob: (1, 2), match_on: false, err_ops: false, n_events: 8, ..Cfg::default() };
+    gen_random(&mut rng, &cfg, if tier == "thorough" { 8000 } else { 600 }, "rule sets with dependencies among reported rules", (0, 1), out);
 }
 
 /// C10: any subset of operands made to fail at every position; DAG levels
@@ -164,9 +168,9 @@ pub fn gen_c12(tier: &str, seed: u64, out: &mut dyn FnMut(Value)) {
             if rng.chance(1, 3) {
                 // same source, another id / same id, another source: neighbouring cache keys
                 if rng.chance(1, 2) {
-                    e.id = *rng.pick(&[1i64, 2, 0, -1]);
+                    e.id = *rng.pick(&[1i64, 2, 0, -1, -2, 4294967297, 4294967298, -4294967295, i64::MIN, i64::MAX]);
                 } else {
-                    e.source = rng.pick(&["s", "t", "u"]).to_string();
+                    e.source = rng.pick(&["s", "t", "u", "s-", "s--"]).to_string();
                 }
             }
             events.push(e);
